@@ -42,9 +42,9 @@ class PairTracker:
             if c in (16, 32):
                 self.active[(sa, ps)] = dict(start=t, total=data[3], sent=0, end=None, why=None, bam=(c == 32))
             elif c == 255:
+                # an abort from sa to ps: sa may be giving up as originator of sa->ps, or ending a receive session of
+                # ps->sa that only it still remembers — the bus does not say which: no verdict for either direction
                 self.doubt(sa, ps)
-                if self.is_open((sa, ps)) and not self.is_open((ps, sa)) and not self.active[(sa, ps)]['bam']:
-                    self.active[(sa, ps)].update(end=t, why='own-abort')          # the originator gives up
         elif pf == TP_DT:
             a = self.active.get((sa, ps))
             if a:
